@@ -3,6 +3,7 @@ package main
 import (
 	"errors"
 	"fmt"
+	"sort"
 	"strconv"
 
 	"github.com/grafana/dskit/ring"
@@ -91,18 +92,23 @@ func runC05(e *env) {
 						delete(other.Ingesters, id)
 					}
 				}
+				ids := make([]string, 0, len(other.Ingesters))
+				for id := range other.Ingesters {
+					ids = append(ids, id)
+				}
+				sort.Strings(ids) // never let Go's map order pick: every choice comes from the PRNG
 				switch r.intn(3) {
 				case 0: // remove one
-					for id := range other.Ingesters {
-						delete(other.Ingesters, id)
-						break
+					if len(ids) > 0 {
+						delete(other.Ingesters, pick(r, ids))
 					}
 				case 1: // heartbeat / token change of one
-					for id, i := range other.Ingesters {
+					if len(ids) > 0 {
+						id := pick(r, ids)
+						i := other.Ingesters[id]
 						i.Timestamp = clock
-						i.Tokens = append(i.Tokens, uint32(1+r.intn(4)))
+						i.Tokens = append(append([]uint32(nil), i.Tokens...), uint32(1+r.intn(4)))
 						other.Ingesters[id] = i
-						break
 					}
 				default: // add one
 					n := c05Desc(r, nIDs, true)
